@@ -227,6 +227,8 @@ pub struct SizeMap {
     pub template: Vec<Option<bool>>,
     /// template and crate traversal agree on which pixels are data modules
     pub roles_agree_with_template: bool,
+    /// parsing the Tag rendering gives back the same Tag matrix and the right size (generic bit type round trip)
+    pub tag_roundtrip_ok: bool,
     pub width: usize,
 }
 
@@ -274,6 +276,10 @@ pub fn build_size_map(s: &SizeInfo) -> SizeMap {
     if cw_pixels.iter().take(s.n_total()).any(|p| p.contains(&u32::MAX)) {
         agree = false;
     }
+    let tag_roundtrip_ok = match MatrixMap::<Tag>::try_from_bits(tags, width) {
+        Ok((m2, sz)) => m2 == m && sz == s.size && m2.bitmap().bits() == tags,
+        Err(_) => false,
+    };
     let template_data_pixels = template
         .iter()
         .enumerate()
@@ -293,6 +299,7 @@ pub fn build_size_map(s: &SizeInfo) -> SizeMap {
         template_fixed_pixels,
         template,
         roles_agree_with_template: agree,
+        tag_roundtrip_ok,
         width,
     }
 }
